@@ -271,3 +271,72 @@ def assigned_in(node, lid):
         if n.get('k') == 'call' and n.get('opcall') and n.get('n') in ('operator=',) and is_local(n['args'][0], lid):
             return True
     return False
+
+
+def resolve_ref_local(body, e, depth=0):
+    """a local declared as a reference (or a const copy of an iterator) stands for its initialiser when it is never reassigned"""
+    e = strip(e, casts=True)
+    while isinstance(e, dict) and e.get('k') == 'construct' and len(e.get('args', [])) == 1:
+        e = strip(e['args'][0], casts=True)
+    if isinstance(e, dict) and e.get('k') == 'local' and depth < 4:
+        for d in nodes(body, 'decl'):
+            for v in d['vars']:
+                if v['id'] == e['id'] and v.get('init') is not None and not assigned_in(body, e['id']):
+                    return resolve_ref_local(body, v['init'], depth + 1)
+    return e
+
+
+def whole_container_traversal(body, container_pred):
+    """loops that visit every element of a container accepted by container_pred(expr) exactly once:
+         for (it = C.begin(); it != C.end(); ++it) ...
+         it = C.begin(); [stop = C.end();] while (it != C.end() | stop) { ...; ++it; }
+       Returns (verdict, loop, iterator id): True for a loop of that shape with no break/continue/extra stepping,
+       False for a loop over C's iterators that deviates from it, None when no loop over C is found."""
+    verdict, found, itid = None, None, None
+
+    def is_call(e, names):
+        e = resolve_ref_local(body, e)
+        return isinstance(e, dict) and e.get('k') == 'call' and e.get('n') in names and container_pred(resolve_ref_local(body, e.get('obj')) if e.get('obj') is not None else None)
+
+    for kind in ('for', 'while'):
+        for l in nodes(body, kind):
+            c = strip(l.get('c'), casts=True) if l.get('c') is not None else {}
+            if not (c.get('k') == 'call' and c.get('n') in ('operator!=', 'operator==', 'operator<') and len(c.get('args', [])) == 2):
+                continue
+            a, b = strip(c['args'][0], casts=True), c['args'][1]
+            while a.get('k') == 'construct' and len(a['args']) == 1:
+                a = strip(a['args'][0], casts=True)
+            if a.get('k') != 'local':
+                continue
+            it = a['id']
+            # where does the iterator start
+            start = None
+            if kind == 'for' and l.get('init') and l['init'].get('k') == 'decl':
+                for v in l['init']['vars']:
+                    if v['id'] == it:
+                        start = v.get('init')
+            if start is None:
+                for d in nodes(body, 'decl'):
+                    for v in d['vars']:
+                        if v['id'] == it:
+                            start = v.get('init')
+            starts_at_begin = start is not None and is_call(start, ('begin', 'cbegin'))
+            ends_at_end = is_call(b, ('end', 'cend'))
+            if not (starts_at_begin or ends_at_end):
+                continue        # not a loop over this container
+            lb = l.get('body')
+            early = [n for n in walk(lb) if n.get('k') in ('break', 'continue', 'return', 'goto')]
+            steps = [n for n in walk({'b': lb, 'i': l.get('inc')}) if n.get('k') == 'call' and n.get('n') in ('operator++', 'operator--', 'operator+=', 'operator-=', 'operator=') and
+                     n.get('args') and is_local(n['args'][0], it, casts=True)]
+            one_step = len(steps) == 1 and steps[0]['n'] == 'operator++'
+            if kind == 'while' and one_step:
+                # the step must be the last statement of the body (executed on every iteration after the work)
+                st = flat_stmts(lb)
+                one_step = bool(st) and any(n is steps[0] for n in walk(st[-1]))
+            elif kind == 'for' and one_step:
+                one_step = any(n is steps[0] for n in walk(l.get('inc') or {}))
+            good = starts_at_begin and ends_at_end and c.get('n') == 'operator!=' and one_step and not early
+            if good:
+                return True, l, it
+            verdict, found, itid = False, l, it
+    return verdict, found, itid
